@@ -12,8 +12,13 @@ RULE = ("exhaustive: weights in {1,-1,2,-1/2}^n (n<=2; n<=3 thorough) x all pair
         "{0,1,2}^n x 6 operators and dominates on every slice; constrained: all kind pairs x flag vectors; "
         "containers (tuple/list/deque/float64, float32 and int64 arrays x constructor/keyword/property x zero and "
         "single-element tuples, both classes); integers beyond 2**53 and rationals with integer weights; finite weights x "
-        "finite values whose products saturate at +-inf; values an ulp apart; random: n<=5 dyadic weights/values. Non-trivial = distinct case whose two tuples are not identical "
-        "(or a history / constrained case with at least one evaluated operand)")
+        "finite values whose products saturate at +-inf; values an ulp apart; random: n<=5 dyadic weights/values; "
+        "families of related fitness classes (fresh classes per case): every order of first use over chains of 2-3 classes "
+        "(all pairs of sign vectors n<=2, derived by class / creator.create / mixed, weights overridden or inherited, plain and "
+        "constrained root) and random histories (new class / new object from tuple, list, array, deque / assign / read-back / str / "
+        "compare / dominates / clone / delete) over random families of up to 6 classes two levels deep. Non-trivial = distinct case "
+        "whose two tuples are not identical (or a history / constrained case with at least one evaluated operand; a family "
+        "history with a derived class and at least one read)")
 EXHAUSTIVE = {"quick": False, "thorough": False}
 TIME_BUDGET = {"quick": 60, "thorough": 900}
 TRUSTED = ["IEEE-754: products/quotients of the small dyadic inputs used here are exact, so the Rat model "
@@ -24,9 +29,17 @@ ASSUMPTIONS = ["weights are non-zero finite numbers; values are finite numbers (
                "true division of the getter, as documented for Python's `/`); such integers and exact rationals are used for "
                "the comparison and dominance clauses only, with integer weights so that the products are exact",
                "saturated stream: the model is driven with a strictly increasing image of the weighted values (inf -> 2^1100), "
-               "justified by C01.compare_order_invariant; the oracle compares the products themselves"]
+               "justified by C01.compare_order_invariant; the oracle compares the products themselves",
+               "class families: single inheritance between fitness classes (creator.create takes one base class) and `weights` is "
+               "not re-assigned on a class after its creation; a comparison between instances of two different classes is read as "
+               "the comparison of each one's values times the weights of ITS OWN class"]
 EXPLANATION = ("Theorems C01.* are proved for every linearly ordered field and all tuple lengths; "
-               "the correspondence ties Core/Fitness.lean to deap.base on exactly-representable inputs.")
+               "the correspondence ties Core/Fitness.lean to deap.base on exactly-representable inputs. Core/FitClass.lean makes the "
+               "per-class state explicit (a class = its own `weights` entry + its parent; lookup along the MRO) and runs whole caller "
+               "histories over several related classes; C01.class_isolation proves that no operation on another class or instance can "
+               "change a result (so the unchanged library has no per-class cache to go stale), C01.readback_hierarchy the read-back "
+               "for a derived class whatever its ancestors declare; the family streams drive exactly those histories through the real "
+               "classes (fresh per case, both orders of first use).")
 
 
 def fr(s):
@@ -104,6 +117,8 @@ def exact(t):
 
 def evaluate(d):
     k = d["k"]
+    if k == "fam":
+        return eval_fam(d)
     w = [fr(x) for x in d["w"]]
     num = d.get("num", "float")
     conv = {"float": float, "int": int, "frac": (lambda q: q)}.get(num, float)
@@ -374,6 +389,368 @@ def eval_ctor(d):
 WSET = ["1", "-1", "2", "-1/2"]
 ALL_SLICES = None
 
+# ---------------------------------------------------------------------------------------------------------------
+# families of related fitness classes (model: Core/FitClass.lean, theorems class_isolation / readback_hierarchy)
+
+def fam_resolve(classes, c):
+    """The weights class `c` resolves to by Python's attribute lookup along the MRO, computed from the case
+    description (never by asking the class): the nearest class, starting with `c` itself, that declares weights."""
+    while c is not None and 0 <= c < len(classes):
+        if classes[c]["w"] is not None:
+            return [fr(x) for x in classes[c]["w"]]
+        c = classes[c]["p"]
+    return None
+
+
+def fam_depth(classes, c):
+    n = 0
+    while classes[c]["p"] is not None:
+        c = classes[c]["p"]
+        n += 1
+    return n
+
+
+def _exf(t):
+    return tuple(Fr(float(x)) for x in t)
+
+
+def eval_fam(d):
+    """A history of operations a caller runs on a small family of related fitness classes (a class made directly
+    from the library's base class, classes derived from it with `class`/`type` or creator.create, up to two levels
+    deep, `weights` overridden or inherited) and on instances of all of them: every class is created afresh for the
+    case, every observation goes to the model (one protocol line for the whole history) and every read is checked
+    against the statement: values read back unchanged for weights +-1, valid exactly while assigned and not deleted,
+    the six operators and dominates follow the weighted values (value times the weight ITS OWN class declares or
+    inherits), a clone compares equal to its original."""
+    import ast
+    import collections
+    import numpy
+    from deap import creator
+    cons = bool(d.get("constrained"))
+    root = base.ConstrainedFitness if cons else base.Fitness
+    boxes = {"t": tuple, "l": list, "a": lambda t: numpy.array(t, dtype=float), "d": collections.deque}
+    classes, pycls, made = [], [], []
+    slots, track = {}, {}
+    toks, outs = [], []
+    state = {"orc": None}
+    nreads = 0
+
+    def fail(msg):
+        if state["orc"] is None:
+            state["orc"] = "%s  [after: %s]" % (msg, " ".join(toks[-6:]))
+
+    def describe(c):
+        chain, k = [], c
+        while k is not None:
+            chain.append("class %d weights=%s" % (k, "inherited" if classes[k]["w"] is None else ",".join(classes[k]["w"])))
+            k = classes[k]["p"]
+        return " <- ".join(chain)
+
+    try:
+        for op in d["ops"]:
+            kind = op[0]
+            if kind == "class":
+                p, how, w, wt = op[1], op[2], op[3], op[4]
+                toks.append("class:%s:%s" % ("b" if p is None else p, "none" if w is None else slist([fr(x) for x in w])))
+                if p is not None and not (0 <= p < len(pycls)):
+                    outs.append("err")
+                    continue
+                parent = root if p is None else pycls[p]
+                attrs = {}
+                if w is not None:
+                    cw = int if wt == "int" else float
+                    ws = [cw(fr(x)) for x in w]
+                    attrs["weights"] = list(ws) if wt == "list" else tuple(ws)
+                name = "C01Fam%d" % len(pycls)
+                if how == "creator":
+                    creator.create(name, parent, **attrs)
+                    made.append(name)
+                    cls = getattr(creator, name)
+                else:
+                    cls = type(name, (parent,), attrs)
+                pycls.append(cls)
+                classes.append({"p": p, "w": w})
+                outs.append("ok")
+            elif kind == "new":
+                slot, c, box, vals = op[1], op[2], op[3], [fr(x) for x in op[4]]
+                toks.append("new:%d:%d:%s:%s" % (slot, c, box, slist(vals)))
+                w = fam_resolve(classes, c)
+                legal = w is not None and len(vals) in (0, len(w))
+                try:
+                    obj = pycls[c](boxes[box](tuple(float(x) for x in vals)))
+                except Exception as e:  # noqa
+                    outs.append("err")
+                    if legal:
+                        fail("building a fitness of %s from the %s %r raised %s: %s" % (describe(c), box, vals, type(e).__name__, e))
+                    continue
+                slots[slot] = obj
+                track[slot] = {"cls": c, "vals": tuple(vals) if vals else None, "src": "assigned"}
+                outs.append("ok")
+                if legal and obj.valid != bool(vals):
+                    fail("fitness built from the %s %r (container kind %s) reports valid=%s" % (box, [float(x) for x in vals], box, obj.valid))
+            elif kind == "set":
+                slot, box, vals = op[1], op[2], [fr(x) for x in op[3]]
+                toks.append("set:%d:%s:%s" % (slot, box, slist(vals)))
+                if slot not in slots:
+                    outs.append("err")
+                    continue
+                c = track[slot]["cls"]
+                w = fam_resolve(classes, c)
+                legal = len(vals) == len(w)
+                try:
+                    slots[slot].values = boxes[box](tuple(float(x) for x in vals))
+                except Exception as e:  # noqa
+                    outs.append("err")
+                    if legal:
+                        fail("assigning %r to a fitness of %s raised %s: %s" % (vals, describe(c), type(e).__name__, e))
+                    continue
+                outs.append("ok")
+                if legal:
+                    track[slot] = {"cls": c, "vals": tuple(vals), "src": "assigned"}
+                    if not slots[slot].valid:
+                        fail("fitness reports invalid right after values were assigned")
+                else:
+                    track[slot]["src"] = "unknown"      # (an assignment the model rejects was accepted: correspondence break)
+            elif kind == "del":
+                slot = op[1]
+                toks.append("del:%d" % slot)
+                if slot not in slots:
+                    outs.append("err")
+                    continue
+                del slots[slot].values
+                track[slot] = {"cls": track[slot]["cls"], "vals": None, "src": "assigned"}
+                outs.append("ok")
+                if slots[slot].valid:
+                    fail("fitness still valid after its values were deleted")
+            elif kind in ("get", "str"):
+                slot = op[1]
+                toks.append("%s:%d" % (kind, slot))
+                if slot not in slots:
+                    outs.append("err")
+                    continue
+                f, t = slots[slot], track[slot]
+                w = fam_resolve(classes, t["cls"])
+                nreads += 1
+                if kind == "str":
+                    txt = str(f)
+                    try:
+                        shown = eval(txt, {"__builtins__": {}, "np": numpy, "numpy": numpy, "inf": float("inf"), "nan": float("nan")})
+                        if cons:
+                            shown = shown[0]
+                        outs.append("s|" + slist(_exf(shown)))
+                    except Exception:  # noqa
+                        outs.append("s|?" + txt.replace(" ", ""))
+                    continue
+                back, ok = f.values, f.valid
+                outs.append("%s|%s|%s" % (slist(_exf(f.wvalues)), slist(_exf(back)), bits([ok])))
+                if t["src"] == "assigned":
+                    if ok != (t["vals"] is not None):
+                        fail("valid=%s although the values were %s" % (ok, "assigned and not deleted" if t["vals"] is not None else "deleted / never assigned"))
+                    elif t["vals"] is not None and all(abs(x) == 1 for x in w) and _exf(back) != t["vals"]:
+                        fail("values read back %r differ from the assigned %r (weights +-1: %s)"
+                             % (tuple(back), tuple(float(x) for x in t["vals"]), describe(t["cls"])))
+            elif kind == "cmp":
+                i, j = op[1], op[2]
+                toks.append("cmp:%d:%d" % (i, j))
+                if i not in slots or j not in slots:
+                    outs.append("err")
+                    continue
+                a, b = slots[i], slots[j]
+                got = [a < b, a <= b, a > b, a >= b, a == b, a != b]
+                hb = bool(a == b) and (cons or hash(a) == hash(b))
+                outs.append(bits(got + [hb]))
+                ta, tb = track[i], track[j]
+                if ta["src"] == tb["src"] == "assigned" and ta["vals"] is not None and tb["vals"] is not None:
+                    wa, wb = wv(fam_resolve(classes, ta["cls"]), ta["vals"]), wv(fam_resolve(classes, tb["cls"]), tb["vals"])
+                    want = [lex_lt(wa, wb), lex_lt(wa, wb) or wa == wb, lex_lt(wb, wa), lex_lt(wb, wa) or wa == wb,
+                            wa == wb, wa != wb]
+                    if [bool(x) for x in got] != want:
+                        fail("operators %s differ from the lexicographic comparison %s of the weighted values %s / %s (%s ; %s)"
+                             % (bits(got), bits(want), slist(wa), slist(wb), describe(ta["cls"]), describe(tb["cls"])))
+            elif kind == "dom":
+                i, j, sld = op[1], op[2], op[3]
+                sl = slice(*sld)
+                if i not in slots or j not in slots:
+                    toks.append("dom:%d:%d:-:-" % (i, j))
+                    outs.append("err")
+                    continue
+                a, b = slots[i], slots[j]
+                ia = list(range(*sl.indices(len(a.wvalues))))
+                ib = list(range(*sl.indices(len(b.wvalues))))
+                toks.append("dom:%d:%d:%s:%s" % (i, j, ilist(ia), ilist(ib)))
+                got = a.dominates(b) if (cons or (sld == [None, None, None] and not (len(op) > 4 and op[4]))) else a.dominates(b, sl)
+                outs.append(bits([got]))
+                ta, tb = track[i], track[j]
+                if ta["src"] == tb["src"] == "assigned" and ta["vals"] is not None and tb["vals"] is not None \
+                        and len(ta["vals"]) == len(tb["vals"]):
+                    wa, wb = wv(fam_resolve(classes, ta["cls"]), ta["vals"]), wv(fam_resolve(classes, tb["cls"]), tb["vals"])
+                    sa, sb = [wa[x] for x in ia], [wb[x] for x in ia]
+                    want = all(x >= y for x, y in zip(sa, sb)) and any(x > y for x, y in zip(sa, sb))
+                    if bool(got) != want:
+                        fail("dominates=%s but the definition gives %s on the weighted values %s / %s, slice %s"
+                             % (got, want, slist(wa), slist(wb), sld))
+            elif kind == "clone":
+                i, k = op[1], op[2]
+                toks.append("clone:%d:%d" % (i, k))
+                if i not in slots:
+                    outs.append("err")
+                    continue
+                a = slots[i]
+                cl = copy.deepcopy(a)
+                outs.append(bits([cl == a, cons or hash(cl) == hash(a), cl.valid == a.valid]))
+                if not (cl == a) or cl != a or cl < a or cl > a or cl is a:
+                    fail("clone does not compare equal to its original (%s)" % describe(track[i]["cls"]))
+                slots[k] = cl
+                track[k] = {"cls": track[i]["cls"], "vals": track[i]["vals"], "src": "clone"}
+            else:
+                raise ValueError(kind)
+    finally:
+        for name in made:
+            if hasattr(creator, name):
+                delattr(creator, name)
+    depth = max([fam_depth(classes, c) for c in range(len(classes))] or [0])
+    return Case(d, ["C01 fam " + " ".join(toks)], [" ".join(outs)], state["orc"],
+                tag="fam/%s/classes=%d/depth=%d%s" % (d.get("gen", "rand"), len(classes), depth, "/constrained" if cons else ""),
+                nontrivial=(len(classes) > 1 and nreads > 0))
+
+
+FAM_VALS = ["1", "-1", "2", "-2", "1/2", "-5/2", "3", "7/4", "-3/8", "5"]
+
+
+def fam_vals(rng, n, zero=0.0):
+    return [("0" if rng.random() < zero else rng.choice(FAM_VALS)) for _ in range(n)]
+
+
+def gen_fam_orders(rng):
+    """Every order of FIRST USE over a chain of related classes: for each pair of sign vectors (root / derived),
+    both ways of deriving, chains one and two levels deep (the middle class overriding or inheriting), every
+    permutation in which the classes' instances are first read; then re-assignment, read-back, str, comparisons."""
+    for cons in (False, True):
+        for n in (1, 2):
+            signs = [list(t) for t in itertools.product(["1", "-1"], repeat=n)]
+            for pw in signs:
+                for cw in signs:
+                    if cons and (n == 2 and pw[0] != "1"):
+                        continue
+                    for how in ("class", "creator", "mixed"):
+                        for shape in ("child", "grand-override", "grand-inherit", "mid-inherit"):
+                            if shape == "child":
+                                cl = [[None, pw], [0, cw]]
+                            elif shape == "grand-override":
+                                cl = [[None, pw], [0, cw], [1, pw]]
+                            elif shape == "grand-inherit":
+                                cl = [[None, pw], [0, cw], [1, None]]
+                            else:
+                                cl = [[None, pw], [0, None], [1, cw]]
+                            for perm in itertools.permutations(range(len(cl))):
+                                if len(cl) == 3 and how != "class" and n == 2 and perm not in ((0, 1, 2), (2, 1, 0), (1, 2, 0)):
+                                    continue
+                                ops = [["class", p, ("class" if p is None else "creator") if how == "mixed" else how, w, "float"]
+                                       for p, w in cl]
+                                for c in range(len(cl)):
+                                    ops.append(["new", c, c, "t", []])
+                                for c in range(len(cl)):
+                                    ops.append(["set", c, rng.choice("tl"), fam_vals(rng, n)])
+                                for c in perm:
+                                    ops.append(["get", c])
+                                for c in perm:
+                                    ops.append(["set", c, "t", fam_vals(rng, n)])
+                                    ops.append(["str" if rng.random() < 0.3 else "get", c])
+                                for c in range(len(cl)):
+                                    ops.append(["get", c])
+                                ops.append(["cmp", perm[0], perm[-1]])
+                                ops.append(["dom", perm[-1], perm[0], [None, None, None]])
+                                ops.append(["clone", perm[-1], 5])
+                                ops.append(["get", 5])
+                                yield {"k": "fam", "gen": "order", "constrained": cons, "ops": ops}
+
+
+def gen_fam_random(rng):
+    """One random history over a random family (see eval_fam)."""
+    cons = rng.random() < 0.2
+    n = rng.choice([1, 1, 2, 2, 3])
+    classes = []            # (parent, weights or None, depth)
+    ops = []
+    nslots = 6
+    filled = {}             # slot -> class
+
+    def resolved(c):
+        while c is not None:
+            if classes[c][1] is not None:
+                return classes[c][1]
+            c = classes[c][0]
+        return None
+
+    def add_class():
+        cands = [c for c in range(len(classes)) if classes[c][2] < 2]
+        p = None if (not cands or rng.random() < 0.12) else rng.choice(cands)
+        depth = 0 if p is None else classes[p][2] + 1
+        r = rng.random()
+        m = n + 1 if rng.random() < 0.05 else n
+        if p is None:
+            w = None if r < 0.06 else [rng.choice(["1", "-1"]) for _ in range(m)] if r < 0.8 else [rng.choice(WSET) for _ in range(m)]
+        else:
+            w = None if r < 0.3 else [rng.choice(["1", "-1"]) for _ in range(m)] if r < 0.85 else [rng.choice(WSET) for _ in range(m)]
+        ints = w is not None and all(Fr(x).denominator == 1 for x in w)
+        wt = rng.choice(["float", "float", "list"] + (["int"] if ints else []))
+        # (a class made by creator.create can only be derived from through creator.create: a `class` statement on it
+        #  ends in MetaCreator.__new__ with the bases tuple where it expects one class and raises TypeError)
+        how = "creator" if (p is not None and classes[p][3] == "creator") else rng.choice(["class", "creator"])
+        classes.append((p, w, depth, how))
+        ops.append(["class", p, how, w, wt])
+
+    def vals_for(c, zero=0.15):
+        w = resolved(c)
+        k = len(w) if w is not None else n
+        if rng.random() < 0.04:
+            k += 1                                     # an assignment the library rejects (wrong length)
+        return fam_vals(rng, k, zero)
+
+    def new_inst(slot=None):
+        c = rng.randrange(len(classes))
+        slot = rng.randrange(nslots) if slot is None else slot
+        r = rng.random()
+        vals = [] if r < 0.45 else vals_for(c, zero=0.4)
+        ops.append(["new", slot, c, rng.choice("tlad"), vals])
+        if resolved(c) is not None and len(vals) in (0, len(resolved(c))):
+            filled[slot] = c
+
+    for _ in range(rng.randint(2, 4)):
+        add_class()
+    for s in range(nslots):
+        new_inst(s)
+    for _ in range(rng.randint(10, 36)):
+        r = rng.random()
+        if not filled:
+            new_inst()
+            continue
+        i = rng.choice(sorted(filled))
+        j = rng.choice(sorted(filled))
+        if r < 0.24:
+            ops.append(["set", i, rng.choice("ttla"), vals_for(filled[i])])
+        elif r < 0.50:
+            ops.append(["get", i])
+        elif r < 0.55:
+            ops.append(["str", i])
+        elif r < 0.62:
+            ops.append(["del", i])
+        elif r < 0.74:
+            ops.append(["cmp", i, j])
+        elif r < 0.82:
+            m = len(resolved(filled[i]))
+            sl = [None, None, None] if (cons or rng.random() < 0.5) else rng.choice(slices_for(m))
+            ops.append(["dom", i, j, sl, rng.random() < 0.5])
+        elif r < 0.87:
+            k = rng.randrange(nslots)
+            ops.append(["clone", i, k])
+            filled[k] = filled[i]
+        elif r < 0.94:
+            new_inst()
+        elif len(classes) < 6:
+            add_class()
+    return {"k": "fam", "gen": "rand", "constrained": cons, "ops": ops}
+
+
 
 def slices_for(n):
     vals = [None] + list(range(-n - 1, n + 2))
@@ -406,6 +783,9 @@ def rand_weight(rng):
 def generate(tier, rng, mult):
     thorough = tier == "thorough"
     nmax = 3 if thorough else 2
+    # families of related fitness classes: every order of first use (whole read-back / comparison clauses on derived classes)
+    for d in gen_fam_orders(rng):
+        yield d
     for n in range(1, nmax + 1):
         sls = slices_for(n)
         tuples = [list(map(str, t)) for t in itertools.product([0, 1, 2], repeat=n)]
@@ -460,6 +840,9 @@ def generate(tier, rng, mult):
                     continue
                 for via in (("ctor", "kw", "prop") if a else ("ctor", "kw")):
                     yield {"k": "ctor", "w": w, "a": a, "box": box, "via": via, "constrained": cons}
+    # random histories over random families of related fitness classes
+    for _ in range((6000 if thorough else 500) * mult):
+        yield gen_fam_random(rng)
     # exact numbers that are not doubles: integers beyond 2**53 and rationals, integer weights (products exact)
     B = 2 ** 53
     for _ in range(150 * mult):
@@ -543,6 +926,14 @@ def generate(tier, rng, mult):
 
 
 def shrink(d):
+    if d["k"] == "fam":
+        ops = d["ops"]
+        for i in range(len(ops) - 1, -1, -1):
+            if ops[i][0] != "class":
+                e = dict(d)
+                e["ops"] = ops[:i] + ops[i + 1:]
+                yield e
+        return
     if d["k"] in ("cmp", "dom", "vals", "sat") and len(d["w"]) > 1:
         for i in range(len(d["w"])):
             e = dict(d)
